@@ -59,7 +59,7 @@ type c13result struct {
 	wsViol                      []string
 }
 
-func c13PlayerTCPorWS(c *kit.Ctx, srv *kit.Server, path, transport string, nreq int, stopPub *int32) c13result {
+func c13PlayerTCPorWS(c *kit.Ctx, srv *kit.Server, path, transport string, nreq int, stopPub *int32, videoOnly bool) c13result {
 	var res c13result
 	var cl *kit.RTSPClient
 	var err error
@@ -74,6 +74,9 @@ func c13PlayerTCPorWS(c *kit.Ctx, srv *kit.Server, path, transport string, nreq 
 	}
 	defer cl.Close()
 	vch, ach := 4, 6 // client-chosen channel numbers
+	if videoOnly {
+		ach = -1 // the audio track is never set up: its packets must simply not be sent
+	}
 	if code, err := cl.Play(srv.URL(path), vch, ach); err != nil {
 		res.torn = fmt.Sprintf("handshake %d %v", code, err)
 		return res
@@ -124,7 +127,7 @@ func c13PlayerTCPorWS(c *kit.Ctx, srv *kit.Server, path, transport string, nreq 
 		}
 		if it.Frame != nil {
 			res.frames++
-			if it.Frame.Channel != vch && it.Frame.Channel != vch+1 && it.Frame.Channel != ach && it.Frame.Channel != ach+1 {
+			if it.Frame.Channel != vch && it.Frame.Channel != vch+1 && (ach < 0 || (it.Frame.Channel != ach && it.Frame.Channel != ach+1)) {
 				res.torn = fmt.Sprintf("frame on channel %d which was never negotiated", it.Frame.Channel)
 				break
 			}
@@ -330,7 +333,7 @@ func runC13(c *kit.Ctx) {
 		transport := []string{"tcp", "tcp", "ws", "wsp"}[ri%4]
 		sz := sizes[(ri/4)%len(sizes)]
 		path := fmt.Sprintf("/c13/s%d-%d", c.Shard, ri)
-		scen := fmt.Sprintf("%s/sizes=%d-%d", transport, sz[0], sz[1])
+		scen := fmt.Sprintf("%s/sizes=%d-%d/videoOnly=%v", transport, sz[0], sz[1], (ri/4)%2 == 1 && transport != "wsp")
 		c.Pre("C13 " + scen)
 		pub, err := kit.DialRTSP(srv.Addr)
 		if err != nil {
@@ -355,6 +358,12 @@ func runC13(c *kit.Ctx) {
 				if pub.WriteFrame(0, c13Frame(i, size)) != nil {
 					return
 				}
+				if i%3 == 0 {
+					ap := kit.MakeRTP(kit.ChAudio, 97, true, uint16(i), uint32(i)*1024, 10, kit.AACHbr([][]byte{kit.AACAU(50, uint64(i)+1)}))
+					if pub.WriteFrame(2, ap.Data) != nil {
+						return
+					}
+				}
 				atomic.AddInt64(&published, 1)
 				if i%50 == 0 {
 					time.Sleep(200 * time.Microsecond)
@@ -366,7 +375,7 @@ func runC13(c *kit.Ctx) {
 		if transport == "wsp" {
 			res = c13PlayerWSP(c, srv, path, nreq/4, &stopPub)
 		} else {
-			res = c13PlayerTCPorWS(c, srv, path, transport, nreq, &stopPub)
+			res = c13PlayerTCPorWS(c, srv, path, transport, nreq, &stopPub, (ri/4)%2 == 1)
 		}
 		atomic.StoreInt32(&stopPub, 1)
 		<-pdone
